@@ -6,6 +6,9 @@ mod c30;
 mod c31;
 mod c36;
 mod c41;
+mod gate;
+mod qmon;
+mod sink;
 
 fn main() {
     let args = parse_args();
